@@ -10,6 +10,9 @@ import MidnightZK.Proofs.C04.Invariant
 import MidnightZK.Proofs.C04.Extra
 import MidnightZK.Proofs.C04.Complete2
 import MidnightZK.Proofs.C04.Tight
+import MidnightZK.Proofs.C04.Vector
+import MidnightZK.Proofs.C04.Map
+import MidnightZK.Proofs.C04.VecTrim
 /-!
 # C04 — native-field gadgets are complete and sound w.r.t. their mathematical meaning
 
@@ -817,6 +820,271 @@ theorem mul_row_complete (k x y : F) :
     (progMul (F := F) k).2.Holds R (witMul k x y) ∧
     witMul k x y (progMul (F := F) k).1 = k * x * y :=
   mulRow_complete k x y
+
+/-! ## Variable-length vectors (circuits/src/vec/vector_gadget.rs, vec/vector.rs)
+
+`VecCells` = the `M` buffer cells and the length cell of an `AssignedVector<F, T, M, A>`. `p` is a
+number below which the natural numbers embed injectively into the field (`hinj`; for the native
+field: the modulus) with `M + A ≤ p`. `St.OK s asg` bundles what every emitter needs from the state
+it is emitted into (1..4 lookup columns, `max_bit_len ≥ 1`, the constant cache and the bound cache
+justified by earlier constraints: `bounds_sound`). The emitters are compared cell by cell with the
+recorded real synthesis for every shape of the sweep and EVERY length `0..=M`; the honest advice
+table of every such run is accepted by the model's `Holds` (the `check` requests), so the
+hypotheses `Holds` below are satisfiable on every one of these programs. -/
+
+/-- **`get_lims::<M, A>(n)`** (vec/vector.rs), for every `M`, every `A ∣ M`, every `n ≤ M`: the
+payload range ends less than `A` before the end of the buffer, holds exactly `n` positions, and
+starts at most at `M − A` unless the vector is empty (then it is the empty range at `M`). -/
+theorem get_lims_layout (M A n : Nat) (hA : 0 < A) (hAM : A ∣ M) (hn : n ≤ M) :
+    (getLims M A n).2 ≤ M ∧ M < (getLims M A n).2 + A ∧
+    (getLims M A n).1 + n = (getLims M A n).2 ∧
+    ((getLims M A n).1 + A ≤ M ∨ ((getLims M A n).1 = M ∧ n = 0)) := by
+  obtain ⟨a, b, c, d, _, _⟩ := getLims_facts M A n hA hAM hn
+  exact ⟨a, b, c, d⟩
+
+example : getLims 8 4 2 = (4, 6) ∧ getLims 8 4 4 = (4, 8) ∧ getLims 8 4 5 = (0, 5) ∧
+    getLims 8 4 0 = (8, 8) ∧ getLims 16 8 16 = (0, 16) := by decide
+
+/-- **`get_limits`**: for a vector whose length cell holds `n ≤ M`, EVERY accepted assignment gives
+the two output cells the values `get_lims::<M, A>(n)` — the remainder `len mod A`, the quotient,
+the zero-test hint and the select are all determined. -/
+theorem get_limits_sound (hR : RangeSound R) (p : Nat)
+    (hinj : ∀ a b : Nat, a < p → b < p → ((a : Nat) : F) = ((b : Nat) : F) → a = b)
+    (s : St F) (v : VecCells) (M A pm1 n : Nat) (asg : Cell → F)
+    (hA : 0 < A) (hAM : A ∣ M) (hAle : A ≤ M) (hMp : M + A ≤ p) (hn : n ≤ M)
+    (hlen : asg v.len = (n : F)) (ok : s.OK asg)
+    (h : (vecGetLimits s v M A pm1).2.Holds R asg) :
+    asg (vecGetLimits s v M A pm1).1.1 = (((getLims M A n).1 : Nat) : F) ∧
+    asg (vecGetLimits s v M A pm1).1.2 = (((getLims M A n).2 : Nat) : F) :=
+  (vecGetLimits_sound hR p hinj s v M A pm1 n asg hA hAM hAle hMp hn hlen ok h).2
+
+/-- **`padding_flag_sound`**: for EVERY `M`, every `A ∣ M` (`0 < A ≤ M`), every length `n ≤ M`
+held by the length cell — including `1 ≤ n ≤ A`, where the payload starts at position `M − A` —
+and EVERY assignment satisfying the emitted rows: exactly `M` flags are returned and flag `i` is
+`1` iff position `i` is outside the payload range `[start, start + n) = get_lims::<M, A>(n)`. -/
+theorem padding_flag_sound (hR : RangeSound R) (p : Nat)
+    (hinj : ∀ a b : Nat, a < p → b < p → ((a : Nat) : F) = ((b : Nat) : F) → a = b)
+    (s : St F) (v : VecCells) (M A pm1 n : Nat) (asg : Cell → F)
+    (hA : 0 < A) (hAM : A ∣ M) (hAle : A ≤ M) (hMp : M + A ≤ p) (hn : n ≤ M)
+    (hlen : asg v.len = (n : F)) (ok : s.OK asg)
+    (h : (vecPaddingFlag s v M A pm1).2.Holds R asg) :
+    (vecPaddingFlag s v M A pm1).1.map asg =
+      (List.range M).map (fun i =>
+        if (getLims M A n).1 ≤ i ∧ i < (getLims M A n).1 + n then (0 : F) else 1) := by
+  rw [(vecPaddingFlag_sound hR p hinj s v M A pm1 n asg hA hAM hAle hMp hn hlen ok h).2]
+  have f3 := (getLims_facts M A n hA hAM hn).2.2.1
+  apply List.map_congr_left
+  intro i _
+  rw [f3]
+  by_cases hp : (getLims M A n).1 ≤ i ∧ i < (getLims M A n).2 <;> simp [hp, b2f]
+
+/-- The scans of the code before /repo commit 33e5337 (`0..M−A` and `M−A..M`; seeded change C04-4)
+do NOT compute the complement of the payload range: for `M = 8`, `A = 4`, length 2 the payload
+`[4, 6)` is flagged as padding. A model of that code cannot prove `padding_flag_sound`. -/
+theorem padding_flag_scan_off_by_one_wrong :
+    scanSpec true (getLims 8 4 2).1 (List.range (8 - 4)) ++
+      scanSpec (scanLast true (getLims 8 4 2).1 (List.range (8 - 4))) (getLims 8 4 2).2
+        (List.range' (8 - 4) 4)
+    ≠ (List.range 8).map (fun i => !(decide ((getLims 8 4 2).1 ≤ i ∧ i < (getLims 8 4 2).2))) :=
+  padScan_off_by_one_wrong
+
+/-- **`vector_is_equal_sound`**: for every shape, every length and EVERY accepted assignment, the
+output bit of `is_equal(x, y)` is 1 iff the length cells are equal and the buffers agree at every
+position of the payload range of `x` (which is then the payload range of `y` too); what the
+fillers hold is irrelevant. -/
+theorem vector_is_equal_sound (hR : RangeSound R) (p : Nat)
+    (hinj : ∀ a b : Nat, a < p → b < p → ((a : Nat) : F) = ((b : Nat) : F) → a = b)
+    (s : St F) (x y : VecCells) (M A pm1 n : Nat) (asg : Cell → F)
+    (hA : 0 < A) (hAM : A ∣ M) (hAle : A ≤ M) (hMp : M + A ≤ p) (hn : n ≤ M)
+    (hx : x.buf.length = M) (hy : y.buf.length = M)
+    (hlen : asg x.len = (n : F)) (ok : s.OK asg)
+    (h : (vecIsEqual s x y M A pm1).2.Holds R asg) :
+    (asg (vecIsEqual s x y M A pm1).1 = 1 ↔
+      (asg x.len = asg y.len ∧ ∀ i, (getLims M A n).1 ≤ i → i < (getLims M A n).2 → i < M →
+        asg (x.buf.getD i (advc 0 0 0)) = asg (y.buf.getD i (advc 0 0 0)))) ∧
+    (asg (vecIsEqual s x y M A pm1).1 = 0 ∨ asg (vecIsEqual s x y M A pm1).1 = 1) := by
+  have r := (vecIsEqual_sound hR p hinj s x y M A pm1 n asg hA hAM hAle hMp hn hlen ok h).2
+  rw [r]
+  exact ⟨(b2f_one_iff _).trans (vecEqSpec_iff asg M A n x y hx hy), b2f_bit _⟩
+
+/-- **`assert_equal` / `assert_not_equal` on vectors**: `assert_equal` is satisfiable only if the
+lengths are equal and the payloads agree; `assert_not_equal` is unsatisfiable in that case. -/
+theorem vector_assert_equal_sound (hR : RangeSound R) (p : Nat)
+    (hinj : ∀ a b : Nat, a < p → b < p → ((a : Nat) : F) = ((b : Nat) : F) → a = b)
+    (s : St F) (x y : VecCells) (M A pm1 n : Nat) (asg : Cell → F)
+    (hA : 0 < A) (hAM : A ∣ M) (hAle : A ≤ M) (hMp : M + A ≤ p) (hn : n ≤ M)
+    (hx : x.buf.length = M) (hy : y.buf.length = M)
+    (hlen : asg x.len = (n : F)) (ok : s.OK asg) :
+    ((vecAssertEqual s x y M A pm1).Holds R asg →
+      (asg x.len = asg y.len ∧ ∀ i, (getLims M A n).1 ≤ i → i < (getLims M A n).2 → i < M →
+        asg (x.buf.getD i (advc 0 0 0)) = asg (y.buf.getD i (advc 0 0 0)))) ∧
+    ((vecAssertNotEqual s x y M A pm1).Holds R asg →
+      ¬ (asg x.len = asg y.len ∧ ∀ i, (getLims M A n).1 ≤ i → i < (getLims M A n).2 → i < M →
+        asg (x.buf.getD i (advc 0 0 0)) = asg (y.buf.getD i (advc 0 0 0)))) := by
+  refine ⟨fun h => ?_, fun h hc => ?_⟩
+  · exact (vecEqSpec_iff asg M A n x y hx hy).mp
+      (vecAssertEqual_sound hR p hinj s x y M A pm1 n asg hA hAM hAle hMp hn hlen ok h)
+  · have := vecAssertNotEqual_sound hR p hinj s x y M A pm1 n asg hA hAM hAle hMp hn hlen ok h
+    rw [(vecEqSpec_iff asg M A n x y hx hy).mpr hc] at this
+    exact Bool.noConfusion this
+
+/-- **`assign` of a vector**: `M` buffer cells, and EVERY accepted assignment gives the length cell
+a natural number `n ≤ M` — the hypothesis `asg len = n`, `n ≤ M` of the theorems above is enforced
+by the circuit (`assign_lower_than_fixed(len, M + 1)`). -/
+theorem vector_assign_sound (hR : RangeSound R) (s : St F) (M : Nat) (asg : Cell → F) (ok : s.OK asg)
+    (h : (vecAssign s M).2.Holds R asg) :
+    (vecAssign s M).1.buf.length = M ∧
+    ∃ n : Nat, n ≤ M ∧ asg (vecAssign s M).1.len = (n : F) :=
+  (vecAssign_sound hR s M asg ok h).2
+
+/-- The bundled state invariant holds at the start of every synthesis. -/
+example (asg : Cell → F) : (St.init 4 8 : St F).OK asg :=
+  ⟨by simp [St.init], by simp [St.init], by simp [St.init], fun p hp => by simp [St.init] at hp,
+   fun p hp => by simp [St.init] at hp⟩
+
+/-- **`resize::<L>` keeps the payload**: same length cell, `L` buffer cells, and position
+`get_lims::<L, A>(n).start + k` of the new buffer is the CELL at position
+`get_lims::<M, A>(n).start + k` of the old buffer, for every `k`. -/
+theorem vector_resize_keeps_payload (s : St F) (v : VecCells) (M L A n k : Nat) (hA : 0 < A)
+    (hAM : A ∣ M) (hn : n ≤ M) (hML : M ≤ L) (hbuf : v.buf.length = M) :
+    (vecResize s v M L).1.len = v.len ∧ (vecResize s v M L).1.buf.length = L ∧
+    (vecResize s v M L).1.buf.getD ((getLims L A n).1 + k) (advc 0 0 0)
+      = v.buf.getD ((getLims M A n).1 + k) (advc 0 0 0) :=
+  vecResize_payload s v M L A n k hA hAM hn hML hbuf
+
+/-- **`trim_beginning`, index arithmetic**: `trimSrc M A len n i` is the position of the old buffer
+that position `i` of the new buffer reads (`none` = a filler) in the buffer the code builds (`A`
+fillers, the input without its first `n mod A` cells, `n mod A` fillers; read at `i` when
+`len mod A ≠ 0 ∧ len mod A ≤ n mod A`, else at `A + i`): for every `M`, `A ∣ M`, `len ≤ M`,
+`n ≤ len`, position `k` of the new payload reads element `n + k` of the old payload. -/
+theorem trim_beginning_index_arith (M A len n k : Nat) (hA : 0 < A) (hAM : A ∣ M)
+    (hlen : len ≤ M) (hn : n ≤ len) (hk : k < len - n) :
+    trimSrc M A len n ((getLims M A (len - n)).1 + k) = some ((getLims M A len).1 + n + k) :=
+  trim_index_correct M A len n k hA hAM hlen hn hk
+
+/-- **`trim_beginning` keeps the payload** (circuit level): for every `M`, every `A ∣ M`, every
+length `len ≤ M` held by the length cell and EVERY accepted assignment — whatever the prover
+assigns to the remainder `len mod A`, its quotient, the comparison hint of `leq_fixed` and the
+zero-test hint — `n ≤ len` (a shorter vector makes the circuit unsatisfiable), the new length cell
+holds `len − n`, the new buffer has `M` cells, and position `k` of the new payload
+(`get_lims(len − n).start + k`) holds the value of position `n + k` of the old payload, for every
+`k < len − n`. (`2·2^(⌊log₂ A⌋+1) ≤ p`: the `MAX_BOUND_IN_BITS` condition of the comparison.) -/
+theorem trim_beginning_keeps_payload (hR : RangeSound R) (p : Nat)
+    (hinj : ∀ a b : Nat, a < p → b < p → ((a : Nat) : F) = ((b : Nat) : F) → a = b)
+    (s : St F) (v : VecCells) (M A n len : Nat) (asg : Cell → F)
+    (hA : 0 < A) (hAM : A ∣ M) (hAle : A ≤ M) (hMp : M + A ≤ p) (h2M : 2 * M < p) (hnM : n ≤ M)
+    (hcmp : 2 * 2 ^ (A.log2 + 1) ≤ p)
+    (hlenM : len ≤ M) (hbuf : v.buf.length = M) (hlen : asg v.len = (len : F)) (ok : s.OK asg)
+    (h : (vecTrimBeginning s v M A n p).2.Holds R asg) :
+    n ≤ len ∧
+    asg (vecTrimBeginning s v M A n p).1.len = ((len - n : Nat) : F) ∧
+    (vecTrimBeginning s v M A n p).1.buf.length = M ∧
+    ∀ k, k < len - n →
+      asg ((vecTrimBeginning s v M A n p).1.buf.getD ((getLims M A (len - n)).1 + k) (advc 0 0 0))
+        = asg (v.buf.getD ((getLims M A len).1 + n + k) (advc 0 0 0)) :=
+  vecTrimBeginning_sound hR p hinj s v M A n len asg hA hAM hAle hMp h2M hnM hcmp hlenM hbuf hlen ok h
+
+example : trimSrc 8 4 6 3 4 = some 3 ∧ trimSrc 8 4 6 3 3 = none := by decide
+
+/-! ## Batch assignment of small values -/
+
+/-- **`assign_many_small`** (decomposition/chip.rs; behind `assign_many` of bits and bytes): EVERY
+returned cell lies in a lookup-enabled column of a row tagged with the bit length, so every
+accepted assignment gives it a value below `2^k` — every batch length, every number of lookup
+columns. A model that put the batch in the value columns starting at column 0 (seeded change
+C04-3) could not prove this: column 0 carries no lookup (`lookups_match_model`). -/
+theorem assign_many_small_sound (hR : RangeSound R) (s : St F) (n k : Nat) (asg : Cell → F)
+    (h : (assignManySmall s n k).2.Holds R asg) :
+    ∀ c ∈ (assignManySmall s n k).1, ∃ N : Nat, N < 2 ^ k ∧ asg c = (N : F) :=
+  assignManySmall_sound hR s n k asg h
+
+/-- The batch is not empty and sits in columns `1..`: 5 values with 4 lookup columns. -/
+example : (assignManySmall (St.init 4 8 : St F) 5 8).1 =
+    [⟨0, 0, .adv 1⟩, ⟨0, 0, .adv 2⟩, ⟨0, 0, .adv 3⟩, ⟨0, 0, .adv 4⟩, ⟨1, 0, .adv 1⟩] := by
+  simp [assignManySmall, St.init, St.addRegion, St.queryTag, advc, List.range, List.range.loop]
+
+/-! ## Set (non-)membership maps (circuits/src/map/map_gadget.rs, map/cpu.rs)
+
+The map gadget is generic in its hash chip. The theorems are about the gadget's own constraints
+(`verify_path`, `get`, `insert` in Model/C04/Map.lean) for ANY hash emitter `hashE` that is a
+sound implementation of a function `H` (`HashSound`: what property C07 establishes for the
+Poseidon chip), and the membership statement needs `H` to be injective — collision resistance,
+idealised and stated as the hypothesis `hcr` (as C03/C15 do for the transcript hash).
+Non-membership is membership of the default value 0 at the key's leaf (`MapMt::get`). -/
+
+/-- The assumption `HashSound` is satisfiable: the hash chip the correspondence harness plugs into
+the real `MapGadget` (`h(x, y) = x + 2y + 7 + 3xy`, one `add_and_mul`) satisfies it. -/
+theorem hash_assumption_satisfiable :
+    HashSound R (toyHashE (F := F)) (fun x y => x + 2 * y + 7 + 3 * x * y) := toyHash_sound
+
+/-- **The Merkle root is binding** under injectivity of the hash: two openings of the same root
+along the same direction bits have the same leaf value. -/
+theorem merkle_root_binding (H : F → F → F) (hcr : ∀ a b c d : F, H a b = H c d → a = c ∧ b = d)
+    (bits path path' : List F) (v v' : F) (hl : path.length = path'.length)
+    (h : climbSpec H v (bits.zip path) = climbSpec H v' (bits.zip path')) : v = v' :=
+  merkle_binding H hcr bits path path' v v' hl h
+
+/-- **`verify_path`**: for EVERY accepted assignment (value, siblings, hash internals and the bit
+decomposition chosen by the prover) the root cell equals the recomputation from the value cell
+along the first 128 CANONICAL bits of `H(key, 0)` — the non-canonical alias `H(key,0) + p` of the
+index is rejected — and the 128 sibling cells. -/
+theorem map_verify_path_sound {hashE : St F → Cell → Cell → Cell × St F} {H : F → F → F}
+    (hH : HashSound R hashE H) (hR : RangeSound R) (p : Nat) (hodd : p % 2 = 1)
+    (hp2 : 2 < p) (hp0 : ((p : Nat) : F) = 0)
+    (hinj : ∀ a b : Nat, a < p → b < p → ((a : Nat) : F) = ((b : Nat) : F) → a = b)
+    (numBits : Nat) (hnb0 : 0 < numBits) (hnb : 2 ^ numBits ≤ 2 * p)
+    (s : St F) (key value : Cell) (proof : List Cell) (root : Cell) (asg : Cell → F) (ok : s.OK asg)
+    (h : (mapVerifyPath hashE s key value proof root numBits ((p + 1) / 2)).Holds R asg) :
+    ∃ bs : List Nat, bs.length = numBits ∧ (∀ b ∈ bs, b < 2) ∧ fromLimbs 2 bs < p ∧
+      H (asg key) 0 = ((fromLimbs 2 bs : Nat) : F) ∧
+      asg root = climbSpec H (asg value)
+        (((bs.take treeHeight).map (fun (n : Nat) => (n : F))).zip (proof.map asg)) :=
+  (mapVerifyPath_sound hH hR p hodd hp2 hp0 hinj numBits hnb0 hnb s key value proof root asg ok h).2
+
+/-- **`get` (membership / non-membership)**: accepted `get(k) = v` ⇒ `(k, v)` is in the committed
+map. Formally: whatever opening `(v₀, path₀)` the root has at the leaf addressed by the canonical
+bits of `H(k, 0)` — in particular the one the committed map `MapMt` provides (`get_path`), with
+`v₀` its value for `k`, or the default 0 if `k` is absent — every accepted assignment of the
+circuit returns `v₀`. Assumptions: `HashSound` (the hash chip implements `H`) and `hcr` (`H` is
+injective: collision resistance, idealised). -/
+theorem map_get_sound {hashE : St F → Cell → Cell → Cell × St F} {H : F → F → F}
+    (hH : HashSound R hashE H) (hcr : ∀ a b c d : F, H a b = H c d → a = c ∧ b = d)
+    (hR : RangeSound R) (p : Nat) (hodd : p % 2 = 1)
+    (hp2 : 2 < p) (hp0 : ((p : Nat) : F) = 0)
+    (hinj : ∀ a b : Nat, a < p → b < p → ((a : Nat) : F) = ((b : Nat) : F) → a = b)
+    (numBits : Nat) (hnb0 : 0 < numBits) (hnb : 2 ^ numBits ≤ 2 * p)
+    (s : St F) (key root : Cell) (asg : Cell → F) (ok : s.OK asg)
+    (h : (mapGet hashE s key root numBits ((p + 1) / 2)).2.Holds R asg)
+    (v₀ : F) (path₀ : List F) (bs₀ : List Nat) (hl₀ : bs₀.length = numBits)
+    (hb₀ : ∀ b ∈ bs₀, b < 2) (hlt₀ : fromLimbs 2 bs₀ < p)
+    (hk₀ : H (asg key) 0 = ((fromLimbs 2 bs₀ : Nat) : F)) (hp₀ : path₀.length = treeHeight)
+    (hopen : climbSpec H v₀ (((bs₀.take treeHeight).map (fun (n : Nat) => (n : F))).zip path₀)
+      = asg root) :
+    asg (mapGet hashE s key root numBits ((p + 1) / 2)).1 = v₀ :=
+  mapGet_sound hH hcr hR p hodd hp2 hp0 hinj numBits hnb0 hnb s key root asg ok h v₀ path₀ bs₀ hl₀
+    hb₀ hlt₀ hk₀ hp₀ hopen
+
+/-- **`insert`**: every accepted assignment exhibits one list of 128 siblings and one current leaf
+value such that the old root is the climb from the current value and the NEW root the climb from
+the inserted value, along the same siblings and the same canonical bits of `H(key, 0)`: the new
+root commits to the old map with exactly the leaf of `key` replaced. -/
+theorem map_insert_sound {hashE : St F → Cell → Cell → Cell × St F} {H : F → F → F}
+    (hH : HashSound R hashE H) (hR : RangeSound R) (p : Nat) (hodd : p % 2 = 1)
+    (hp2 : 2 < p) (hp0 : ((p : Nat) : F) = 0)
+    (hinj : ∀ a b : Nat, a < p → b < p → ((a : Nat) : F) = ((b : Nat) : F) → a = b)
+    (numBits : Nat) (hnb0 : 0 < numBits) (hnb : 2 ^ numBits ≤ 2 * p)
+    (s : St F) (key value root : Cell) (asg : Cell → F) (ok : s.OK asg)
+    (h : (mapInsert hashE s key value root numBits ((p + 1) / 2)).2.Holds R asg) :
+    ∃ (bs : List Nat) (path : List F) (cur : F), bs.length = numBits ∧ (∀ b ∈ bs, b < 2) ∧
+      fromLimbs 2 bs < p ∧ H (asg key) 0 = ((fromLimbs 2 bs : Nat) : F) ∧ path.length = treeHeight ∧
+      asg root = climbSpec H cur (((bs.take treeHeight).map (fun (n : Nat) => (n : F))).zip path) ∧
+      asg (mapInsert hashE s key value root numBits ((p + 1) / 2)).1
+        = climbSpec H (asg value) (((bs.take treeHeight).map (fun (n : Nat) => (n : F))).zip path) :=
+  mapInsert_sound hH hR p hodd hp2 hp0 hinj numBits hnb0 hnb s key value root asg ok h
+
+/-- The CPU reference of the map on the harness's hash (evaluated by the `eval` requests against
+the real `MapMt`): the empty map, and a key read back. -/
+example : mapLookup [(3, 10), (5, 11), (3, 12)] 3 = 12 ∧ mapLookup [(3, 10)] 4 = 0 := by decide
 
 /-- Non-vacuity of the hypotheses `CacheOK`/`Holds` of the soundness theorems: the state after
 `assign; assign` has an empty constant cache, and the honest witness of `is_equal` satisfies
